@@ -287,7 +287,7 @@ func drawSide(t *rapid.T, cfg *ImgCfg, name string) int {
 	return v
 }
 
-var contentClasses = []string{"flat", "pal2", "pal4", "pal16", "pal256", "gradient", "photo", "noise", "tiled", "sparse", "regions", "drawn"}
+var contentClasses = []string{"flat", "pal2", "pal4", "pal16", "pal256", "gradient", "photo", "noise", "tiled", "sparse", "regions", "bands", "drawn"}
 var alphaClasses = []string{"opaque", "opaque", "binary", "levels", "gradient", "noise", "transparent", "transp-colored", "semi-flat", "late", "early"}
 
 // DrawImg draws a picture case.
@@ -505,6 +505,50 @@ func RenderContent(w, h int, content, alpha string, seed uint64) []byte {
 					set(x, y, c)
 				}
 			}
+		}
+	case "bands":
+		// horizontal bands: flat, noisy, or an exact repeat of an earlier band (long backward
+		// matches reaching the length cap; empty histogram tiles inside flat runs)
+		type band struct{ y0, h int }
+		var bands []band
+		for y := 0; y < h; {
+			bh := 4 + r.Intn(40)
+			if y+bh > h {
+				bh = h - y
+			}
+			switch k := r.Intn(4); {
+			case k == 0 && len(bands) > 0: // repeat an earlier band row by row
+				src := bands[r.Intn(len(bands))]
+				for j := 0; j < bh; j++ {
+					sy := src.y0 + j%src.h
+					copy(pix[(y+j)*w*4:(y+j+1)*w*4], pix[sy*w*4:(sy+1)*w*4])
+				}
+			case k == 1: // noise
+				for j := 0; j < bh; j++ {
+					for x := 0; x < w; x++ {
+						set(x, y+j, [3]byte{r.Byte(), r.Byte(), r.Byte()})
+					}
+				}
+			case k == 2: // identical textured rows
+				row := make([][3]byte, w)
+				for x := range row {
+					row[x] = [3]byte{r.Byte(), r.Byte(), r.Byte()}
+				}
+				for j := 0; j < bh; j++ {
+					for x := 0; x < w; x++ {
+						set(x, y+j, row[x])
+					}
+				}
+			default: // flat
+				c := [3]byte{r.Byte(), r.Byte(), r.Byte()}
+				for j := 0; j < bh; j++ {
+					for x := 0; x < w; x++ {
+						set(x, y+j, c)
+					}
+				}
+			}
+			bands = append(bands, band{y, bh})
+			y += bh
 		}
 	case "regions":
 		// a collage: rectangles of different textures, cut preferably on multiples of 8/16/32
